@@ -167,7 +167,7 @@ def gen_script(rnd):
 
 def main():
     tier = common.tier()
-    nshards, n = (16, 25) if tier == "quick" else (32, 300)
+    nshards, n = (16, 25) if tier == "quick" else (32, 600)
     jobs = [dict(seed="%d/%s/%d" % (common.seed(), PROP, s), n=n) for s in range(nshards)]
     R = common.Run(PROP, "translation_validation", RULE)
     digests = {}
